@@ -824,6 +824,12 @@ func c11Walk(r *Run) {
 func c11Cluster(r *Run) {
 	t := r.Tape
 	cs := newClusterSim(r, 2+t.Next(2), "c11")
+	// on the mutex-instrumented binary a third of the runs are also interleaved
+	// at (every third or tenth of) LiteFS's mutex acquisitions
+	if MutexYieldBuilt && t.Chance(1, 3) {
+		r.MutexSeam, r.MutexEvery = true, []int{3, 10}[t.Next(2)]
+	}
+	r.Cfg["mutex_seam"], r.Cfg["mutex_every"] = r.MutexSeam, r.MutexEvery
 	cs.wantTx = t.Range(5, 12)
 	for _, n := range cs.cl.Nodes {
 		n.PreOpen = nil
